@@ -538,6 +538,18 @@ pub fn trend_candle_stream(max_len: usize) -> SBoxedStrategy<CandleStream> {
 	trend_spec_strategy().prop_map(move |spec| CandleStream { n: 0, cs: build_trend(&spec, max_len) }).sboxed()
 }
 
+/// Candles on an exactly representable lattice (ticks of 1/4 around 100, the decoder of the `indicator_program`
+/// fuzz target): exact ties between prices, averages and thresholds, exactly flat bars, dojis, gaps, outside
+/// bars, zero / small / huge volumes.
+pub fn lattice_candle_stream(max_len: usize) -> SBoxedStrategy<CandleStream> {
+	proptest::collection::vec(any::<u8>(), 4..2 * max_len)
+		.prop_map(move |bytes| {
+			let mut cur = crate::fuzz_entry::Cur::new(&bytes);
+			CandleStream { n: 0, cs: crate::fuzz_entry::lattice_candles(&mut cur, max_len) }
+		})
+		.sboxed()
+}
+
 pub fn is_valid_c5(c: &C5) -> bool {
 	c.l <= c.o && c.l <= c.c && c.o <= c.h && c.c <= c.h && c.l > 0.0 && c.v >= 0.0 && c.h.is_finite() && c.v.is_finite()
 }
